@@ -49,8 +49,13 @@ class _AEAD:
                 hit = e
                 break
         if hit is None:
+            # ideal cipher: a byte string that is not one of the produced ciphertexts is a forgery and is rejected; it counts as
+            # produced only if it is necessarily equal to one (never by a lucky choice of the free ciphertext bytes)
+            import z3 as _z3
+            c = ctx()
             for e in cands:
-                if e["ct"] == d:
+                eq = e["ct"] == d
+                if eq is True or (eq is not False and not c._check(_z3.Not(eq.t))):
                     hit = e
                     break
         if hit is None:
